@@ -441,15 +441,23 @@ func (t *T) Walk(f func(*T)) {
 // Decls collects the declarations needed by the uninterpreted symbols of ts:
 // constants (gv_*, ge_*, av_*, ...) and functions (cv_*, ce_*, berr_*, ...).
 type Decls struct {
-	m map[string]string
+	m    map[string]string
+	skip map[string]bool
 }
 
-func NewDecls() *Decls { return &Decls{m: map[string]string{}} }
+func NewDecls() *Decls { return &Decls{m: map[string]string{}, skip: map[string]bool{}} }
+
+// Skip marks names that are defined (define-fun) rather than declared.
+func (d *Decls) Skip(names ...string) {
+	for _, n := range names {
+		d.skip[n] = true
+	}
+}
 
 var interpreted = map[string]bool{
 	"true": true, "false": true, "not": true, "and": true, "or": true, "xor": true, "ite": true, "=": true,
 	"+": true, "-": true, "<": true, "<=": true, ">": true, ">=": true, "#int": true,
-	"wrap64": true, "gomul": true, "godiv": true, "gomod": true, "memI": true, "memS": true, "emptyL": true,
+	"wrap64": true, "gomul": true, "godiv": true, "gomod": true, "memI": true, "memS": true, "emptyL": true, "inrange64": true,
 	"bval": true, "ival": true, "sval": true, "ilid": true, "slid": true, "oid": true, "eid": true,
 }
 
@@ -459,7 +467,7 @@ func (d *Decls) Add(ts ...*T) {
 			continue
 		}
 		t.Walk(func(x *T) {
-			if interpreted[x.Op] || x.isCtor() || strings.HasPrefix(x.Op, "is-") {
+			if interpreted[x.Op] || x.isCtor() || strings.HasPrefix(x.Op, "is-") || d.skip[x.Op] {
 				return
 			}
 			if _, ok := d.m[x.Op]; ok {
@@ -524,4 +532,53 @@ func Apps(prefixes []string, ts ...*T) []*T {
 		out = append(out, seen[k])
 	}
 	return out
+}
+
+// Defs is an ordered list of named definitions (define-fun without
+// parameters): sub-results of the reference generators are named instead of
+// being copied, so that the printed terms stay linear in the tree size.
+type Defs struct {
+	names []string
+	body  map[string]*T
+	n     int
+}
+
+func NewDefs() *Defs { return &Defs{body: map[string]*T{}} }
+
+// Name returns t itself when it is small, otherwise a fresh defined constant.
+func (d *Defs) Name(prefix string, t *T) *T {
+	if d == nil || len(t.String()) < 120 {
+		return t
+	}
+	d.n++
+	name := fmt.Sprintf("%s!%d", prefix, d.n)
+	d.names = append(d.names, name)
+	d.body[name] = t
+	return Sym(name, t.Sort)
+}
+
+// Define always introduces the name (used for the top-level reference values).
+func (d *Defs) Define(name string, t *T) *T {
+	d.names = append(d.names, name)
+	d.body[name] = t
+	return Sym(name, t.Sort)
+}
+
+func (d *Defs) Names() []string { return d.names }
+
+func (d *Defs) Bodies() []*T {
+	var out []*T
+	for _, n := range d.names {
+		out = append(out, d.body[n])
+	}
+	return out
+}
+
+func (d *Defs) Text() string {
+	var sb strings.Builder
+	for _, n := range d.names {
+		b := d.body[n]
+		fmt.Fprintf(&sb, "(define-fun %s () %s %s)\n", n, b.Sort.SMT(), b.String())
+	}
+	return sb.String()
 }
